@@ -447,7 +447,15 @@ func (c *Cron) schedule(ctx *core.Context, job *CronJob, checkLimit bool) error 
 	core.Log(core.INFO|CRON, ctx, "Cron.schedule", "job", *job, "name", c.Name)
 
 	if job.Expression != nil {
-		job.Next = job.Expression.Next(time.Now().UTC())
+		next := job.Expression.Next(time.Now().UTC())
+		if next.IsZero() {
+			// No occurrence is left.  A zero time would be
+			// due immediately, again and again.
+			err := fmt.Errorf("Cron %p %s job %s has no future occurrence", c, c.Name, job.Id)
+			core.Log(core.WARN|CRON, ctx, "Cron.schedule", "error", err, "name", c.Name)
+			return err
+		}
+		job.Next = next
 	}
 
 	c.Lock()
